@@ -22,11 +22,12 @@ from .report import Ob, KnownFindings, write_evidence, write_replay
 class Context:
     """Per-run shared state: parsed repository and lazily built engines."""
 
-    def __init__(self, root: str):
+    def __init__(self, root: str, level: int = 0):
         from . import canon
         canon.SYMMETRIC_CALLS.clear()        # per-run: symmetries are re-established on the tree being analysed
         self.root = root
-        self.repo = Repo(root)
+        self.level = level
+        self.repo = Repo(root, level)
         self._cache = {}
 
     def get(self, key, builder):
@@ -48,6 +49,7 @@ def run_check(prop: str, tier: str, root: str, out=sys.stdout) -> int:
         obs: List[Ob] = []
         for rule_fn in spec['rules']:
             obs.extend(rule_fn(ctx))
+        obs = _second_opinion(prop, spec, root, obs, out)
         # anti-vacuity: minimum instance counts per rule
         counts = {}
         for o in obs:
@@ -117,6 +119,43 @@ def run_check(prop: str, tier: str, root: str, out=sys.stdout) -> int:
                   file=out)
         return 2
     return 0
+
+
+def _second_opinion(prop, spec, root, obs: List[Ob], out) -> List[Ob]:
+    """Rules that do not hold on the source as written are re-examined on its normal form (normalize.py): the
+    normal form is a value-equivalent program, so a rule discharged there is discharged for the source.  A rule is
+    reported as violated (or inconclusive) only if it is so on both."""
+    known = KnownFindings()
+    bad = {o.rule for o in obs if o.status == 'inconclusive'
+           or (o.status == 'violation' and known.match(prop, o) is None)}
+    mins = spec.get('min_instances', {})
+    counts = {}
+    for o in obs:
+        if o.status in ('ok', 'violation'):
+            counts[o.rule] = counts.get(o.rule, 0) + 1
+    bad |= {r for r, mn in mins.items() if counts.get(r, 0) < mn}
+    if not bad:
+        return obs
+    try:
+        ctx1 = Context(root, level=1)
+        obs1: List[Ob] = []
+        for rule_fn in spec['rules']:
+            obs1.extend(rule_fn(ctx1))
+    except Exception as e:      # the normal form could not be analysed: the first opinion stands
+        print(f"{prop}: normal form not analysable ({e!r}); reporting on the source as written", file=out)
+        return obs
+    out_obs = list(obs)
+    for r in sorted(bad):
+        alt = [o for o in obs1 if o.rule == r]
+        dec = [o for o in alt if o.status in ('ok', 'violation')]
+        good = all(o.status in ('ok', 'info') or (o.status == 'violation' and known.match(prop, o) is not None)
+                   for o in alt)
+        if alt and good and len(dec) >= mins.get(r, 1):
+            for o in alt:
+                o.extra['analysed'] = 'normal form'
+            out_obs = [o for o in out_obs if o.rule != r] + alt
+            print(f"{prop}: {r} decided on the normal form ({len(dec)} instances)", file=out)
+    return out_obs
 
 
 def _level_cov(spec, obs) -> dict:
